@@ -5,7 +5,8 @@ Correspondence with lean/EdzedModel/Dispatch.lean + an independent oracle of the
 A scenario is a circuit of probe blocks (scripted handlers), Inputs and Counters wired by
 on_output / on_every_output / explicitly sent events (with filters and EventCond), the circuit's
 start-up (events are already exchanged during the initialisation: early initialisation of a
-destination under `_enable_event`), a sequence of external events (ExtEvent or a direct
+destination under `_enable_event`), OutputFuncs sending on_success / on_error events from inside their
+handler, a sequence of external events (ExtEvent or a direct
 `blk.event()` call with any object as event type) and a follow-up event to every block.
 """
 import inspect
@@ -21,14 +22,19 @@ ID = 'C11'
 RULE = ("hand-written seed circuits (self-loop, 2/3-cycles, diamond, every harmless outcome, early "
         "initialisation with a loop back, malformed event types) + random event graphs over 1..4 blocks "
         "(probe blocks with scripted handlers a/b/need/ping, Input with/without initdef and allowed set, "
-        "Counter with/without modulo), 0..2 on_output, 0..1 on_every_output and 0..2 explicitly sent "
+        "Counter with/without modulo, OutputFunc with a returning/failing function and 0..2 on_success / 0..1 on_error "
+        "events sent from inside its handler, a quarter of the first on_success events looping straight back), 0..2 on_output, 0..1 on_every_output and 0..2 explicitly sent "
         "events per block with random destination (self-loops, cycles, diamonds), event type (known, "
         "unknown, EventCond incl. nested and None branches), 0..2 filters; start-up of the circuit, "
         "then every external sequence of length <= 2 (quick: a random subset) / <= 3 over an alphabet of "
         "6..9 events per circuit or random sequences of length <= 4, then a follow-up event to every "
         "block; a case is distinct by its (lines, trace) hash and non-trivial when a handler was entered")
 ASSUMPTIONS = [
-    "handlers do not swallow exceptions of the events they send (library blocks do not)",
+    "handlers do not swallow exceptions of the events they send (the library blocks modelled here do not; "
+    "OutputFunc catches only the exceptions of its function, the on_success events are sent after the try). "
+    "Observed on the unchanged code and NOT judged by this check: when a user handler between the two "
+    "deliveries catches the EdzedCircuitError of a refused recursive event, nobody calls abort() and the "
+    "simulation goes on",
     "values are ints/bools, so that Counter arithmetic never sees a non-number",
     "FSM chained transitions (the FSM-internal window, `_fsm_event_active/_next_event`) and Repeat are not "
     "part of this model; the `_enable_event` mechanism itself is exercised through early initialisation",
@@ -36,6 +42,8 @@ ASSUMPTIONS = [
 EXHAUSTIVE = {'quick': False, 'thorough': False}
 
 LOG = []        # enter/exit log shared by all blocks of the running scenario
+REFUSED = []    # blocks that refused a recursive event, in order
+BUSY_OK = []    # blocks whose event() returned normally although their handler was running (probe depth > 0)
 
 
 # ---------------------------------------------------------------- real blocks with probes
@@ -56,6 +64,20 @@ class _Traced:
         if self._c11_depth > 3:
             self._c11_depth -= 1
             raise Overflow(self.name)
+
+    def event(self, etype, /, **data):
+        """observe (not alter) a refusal at the block that raises it, whoever catches it later"""
+        busy = getattr(self, '_c11_depth', 0) > 0
+        try:
+            ret = super().event(etype, **data)
+            if busy:
+                BUSY_OK.append(self.name)
+            return ret
+        except edzed.EdzedCircuitError as err:
+            if 'Forbidden recursive' in str(err) and not getattr(err, '_c11_seen', False):
+                err._c11_seen = True
+                REFUSED.append(self.name)
+            raise
 
     def _c11_exit(self, ok):
         self._c11_depth -= 1
@@ -149,6 +171,18 @@ def instrument(base):
 
 TInput = instrument(edzed.Input)
 TCounter = instrument(edzed.Counter)
+TOutputFunc = instrument(edzed.OutputFunc)
+
+
+def py_func(spec):
+    if spec == 'v':
+        return lambda value: value
+    if spec == 'f':
+        def fail(value):
+            raise RuntimeError('output function failed')
+        return fail
+    const = spec[1]
+    return lambda value: const
 
 FILTERS = {
     'a': lambda data: True,
@@ -217,6 +251,9 @@ def def_lines(scn):
             initdef = 'u' if b['initdef'] is None else enc(b['initdef'])
             allowed = '-' if b['allowed'] is None else ','.join(enc(v) for v in b['allowed'])
             lines.append(f"dispatch blk {i} input {initdef} {allowed}")
+        elif b['kind'] == 'outfunc':
+            f = b['func']
+            lines.append(f"dispatch blk {i} outfunc {f if isinstance(f, str) else 'c' + enc(f[1])}")
         else:
             lines.append(f"dispatch blk {i} counter {'n' if b['mod'] is None else enc(b['mod'])} {enc(b['initdef'])}")
     for src, slot, dest, et, fl in scn['edges']:
@@ -227,7 +264,7 @@ def def_lines(scn):
 def build(scn):
     blocks = []
     for i, b in enumerate(scn['blocks']):
-        slots = {'o': [], 'e': [], 'x': []}
+        slots = {'o': [], 'e': [], 'x': [], 's': [], 'r': []}
         for src, slot, dest, et, fl in scn['edges']:
             if src == i:
                 slots[slot].append(edzed.Event(f'b{dest}', py_etype(et), efilter=[py_filter(f) for f in fl]))
@@ -241,6 +278,8 @@ def build(scn):
             if b['allowed'] is not None:
                 kw['allowed'] = b['allowed']
             blk = TInput(f'b{i}', **kw)
+        elif b['kind'] == 'outfunc':
+            blk = TOutputFunc(f'b{i}', func=py_func(b['func']), on_success=slots['s'], on_error=slots['r'], **kw)
         else:
             blk = TCounter(f'b{i}', modulo=b['mod'], initdef=b['initdef'], **kw)
         blocks.append(blk)
@@ -277,7 +316,8 @@ def state_str(circuit, blocks):
 def followups(scn):
     out = []
     for i, b in enumerate(scn['blocks']):
-        out.append(['raw', i, ['n', 'ping' if b['kind'] == 'probe' else 'put'], {}])
+        # harmless events that pass the guard: ping / a call that does not bind / an unknown type
+        out.append(['raw', i, ['n', {'probe': 'ping', 'outfunc': 'zz'}.get(b['kind'], 'put')], {}])
     return out
 
 
@@ -288,6 +328,8 @@ def run_impl(scn):
     sim = Sim()
     ctx = {}
     del LOG[:]
+    del REFUSED[:]
+    del BUSY_OK[:]
 
     def build_circuit(circuit):
         ctx['blocks'] = build(scn)
@@ -297,15 +339,14 @@ def run_impl(scn):
         blocks = ctx['blocks']
         items = list(LOG)
         del LOG[:]
-        refused = '-'
-        if exc is not None:
-            m = re.search(r"'([^']+)'>: Forbidden recursive", str(exc))
-            if m:
-                refused = '!' + m.group(1)
+        refused = ','.join('!' + n for n in REFUSED) if REFUSED else '-'
+        del REFUSED[:]
         state = state_str(sim.circuit, blocks)
         lines.append(line)
         trace.append(f"{res} | {','.join(items) if items else '-'} | {refused} | {state}")
-        steps.append({'op': op, 'res': res, 'items': items, 'refused': refused,
+        busy_ok = list(BUSY_OK)
+        del BUSY_OK[:]
+        steps.append({'op': op, 'res': res, 'items': items, 'refused': refused, 'busy_ok': busy_ok,
                       'active': [b.name for b in blocks if b._event_active],
                       'error': kind_of(sim.circuit.error),
                       'maxdepth': max((getattr(b, '_c11_max', 0) for b in blocks), default=0)})
@@ -323,6 +364,8 @@ def run_impl(scn):
                     ret = edzed.ExtEvent(blocks[d], et).send(**data)
                 else:
                     ret = blocks[d].event(py_etype(et), **data)
+                if isinstance(ret, tuple) and ret and ret[0] == 'error':
+                    ret = ('error',)        # OutputFunc: ('error', <exception object>)
                 res, exc = 'ret ' + enc(ret), None
             except (Exception, Overflow) as err:    # pylint: disable=broad-except
                 res, exc = 'exc ' + kind_of(err), err
@@ -365,13 +408,17 @@ def oracle(scn, res):
         if deep:
             out.append({'clause': 'no_nested_handling',
                         'what': f"step {i} {op}: handler entered while the block was handling an event: {deep}"})
+        if s['busy_ok']:
+            out.append({'clause': 'recursion_is_refused_and_aborts',
+                        'what': f"step {i} {op}: an event addressed to a block that was handling an event was "
+                                f"not refused: {s['busy_ok']}"})
         # 2. no block stays locked after a top-level delivery, whatever its outcome
         if s['active']:
             out.append({'clause': 'guard_balanced',
                         'what': f"step {i} {op} -> {s['res']}: _event_active left set on {s['active']}"})
         # 3. the follow-up event is accepted by every block
         #    (refused at once = by the addressed block itself, before anything else happened)
-        if op['kind'] != 'init' and op['follow'] and s['refused'] == f"!b{op['d']}" and not s['items']:
+        if op['kind'] != 'init' and op['follow'] and s['refused'].split(',')[0] == f"!b{op['d']}" and not s['items']:
             out.append({'clause': 'follow_up_accepted',
                         'what': f"step {i}: block b{op['d']} refuses a new event: {s['res']}"})
         # 4. the simulation is stopped exactly when documented: an exception other than
@@ -383,6 +430,10 @@ def oracle(scn, res):
         else:
             left_handler = any(it.startswith('-') and it.endswith('!') for it in s['items'])
             expect = failed and left_handler and s['res'] != 'exc UnknownEvent'
+            if s['refused'] != '-' and not failed:
+                out.append({'clause': 'recursion_is_refused_and_aborts',
+                            'what': f"step {i} {op}: recursive event refused ({s['refused']}) but the sender "
+                                    f"of the outer event got no exception: {s['res']}"})
             if s['refused'] != '-' and not (err_before != '-' or s['error'] != '-'):
                 out.append({'clause': 'recursion_is_refused_and_aborts',
                             'what': f"step {i} {op}: recursive event refused ({s['refused']}) but the simulation goes on"})
@@ -417,9 +468,23 @@ def cnt(mod=None, initdef=0):
     return {'kind': 'counter', 'mod': mod, 'initdef': initdef}
 
 
+def outf(func='v'):
+    return {'kind': 'outfunc', 'func': func}
+
+
 def seeds():
     E = lambda d, name, data=None: ['ext', d, name, data or {}]
     R = lambda d, et, data=None: ['raw', d, et, data or {}]
+    # OutputFunc: on_success loops straight back (through a filter only) / through another block;
+    # a failing function whose on_error event loops back; no loop
+    yield {'blocks': [outf()], 'edges': [[0, 's', 0, N('put'), [['s', 2]]]], 'ops': [E(0, 'put', {'value': 1})]}
+    yield {'blocks': [outf(), inp()], 'edges': [[0, 's', 1, N('put'), []], [1, 'o', 0, N('put'), ['u']]],
+           'ops': [E(0, 'put', {'value': 1}), E(1, 'put', {'value': 1})]}
+    yield {'blocks': [outf('f'), probe(a=[['s', 0, 1]])], 'edges': [[0, 'r', 1, N('a'), []], [1, 'x', 0, N('put'), []]],
+           'ops': [E(0, 'put', {'value': 1})]}
+    yield {'blocks': [outf(['c', 3]), outf('f'), cnt()],
+           'edges': [[0, 's', 1, N('put'), []], [1, 'r', 2, N('inc'), []], [0, 's', 2, ['c', N('inc'), ['0']], ['v']]],
+           'ops': [E(0, 'put', {'value': 0}), E(0, 'put'), E(1, 'put', {'value': 1})]}
     # self-loop through on_output
     yield {'blocks': [probe(a=[['o', 1]])], 'edges': [[0, 'o', 0, N('a'), []]], 'ops': [E(0, 'a'), E(0, 'a')]}
     # 2-cycle and 3-cycle through explicitly sent events
@@ -469,7 +534,8 @@ VALUES = [0, 1, 2, 3, True, False]
 def rand_etype(rng, kind, depth=0):
     names = {'probe': ['a', 'a', 'b', 'b', 'need', 'ping', 'zz'],
              'input': ['put', 'put', 'put', 'zz'],
-             'counter': ['inc', 'inc', 'dec', 'put', 'reset', 'zz']}[kind]
+             'counter': ['inc', 'inc', 'dec', 'put', 'reset', 'zz'],
+             'outfunc': ['put', 'put', 'put', 'put', 'zz']}[kind]
     r = rng.random()
     if r < 0.72 or depth >= 2:
         return N(rng.choice(names))
@@ -498,20 +564,24 @@ def rand_circuit(rng):
     otherwise events (and loops) occur already during the initialisation"""
     quiet = rng.random() < 0.6
     n = rng.choice([1, 2, 2, 3, 3, 3, 4])
-    kinds = [rng.choice(['probe', 'probe', 'probe', 'input', 'input', 'counter']) for _ in range(n)]
+    kinds = [rng.choice(['probe', 'probe', 'probe', 'input', 'input', 'counter', 'outfunc', 'outfunc']) for _ in range(n)]
     edges, nextra = [], [0] * n
     # a backbone cycle or chain makes loops likely
     shape = rng.random()
     for i in range(n):
         for slot, cnt_ in (('o', rng.choice([0, 1, 1, 2])), ('e', rng.choice([0, 0, 0, 1])),
-                           ('x', rng.choice([0, 1, 2]) if kinds[i] == 'probe' else 0)):
+                           ('x', rng.choice([0, 1, 2]) if kinds[i] == 'probe' else 0),
+                           ('s', rng.choice([0, 1, 1, 2]) if kinds[i] == 'outfunc' else 0),
+                           ('r', rng.choice([0, 1]) if kinds[i] == 'outfunc' else 0)):
             for k in range(cnt_):
-                if shape < 0.4 and k == 0:
+                if slot == 's' and k == 0 and rng.random() < 0.25:
+                    dest = i                    # on_success straight back to the OutputFunc
+                elif shape < 0.4 and k == 0:
                     dest = (i + 1) % n
                 else:
                     dest = rng.randrange(n)
                 fl = rand_filters(rng)
-                if quiet and slot != 'x':
+                if quiet and slot in 'oe':
                     fl.insert(rng.randrange(len(fl) + 1), 'u')
                 edges.append([i, slot, dest, rand_etype(rng, kinds[dest]), fl])
                 if slot == 'x':
@@ -537,6 +607,8 @@ def rand_circuit(rng):
             init = [['o', rng.choice(VALUES)]] if r < 0.75 or quiet else (
                 [] if r < 0.82 else [['o', rng.choice(VALUES)]] + script(2))
             blocks.append(probe(init=init, a=script(), b=script(), need=script()))
+        elif k == 'outfunc':
+            blocks.append(outf(rng.choice(['v', 'v', 'v', 'f', ['c', rng.choice(VALUES)]])))
         elif k == 'input':
             allowed = None if rng.random() < 0.7 else [0, 1, 2]
             initdef = rng.choice([0, 1, 2]) if rng.random() < 0.8 or quiet else None
@@ -554,6 +626,9 @@ def alphabet(rng, circ):
         if k == 'probe':
             ops += [['ext', i, 'a', {}], ['ext', i, 'b', {'value': rng.choice(VALUES)}],
                     ['ext', i, rng.choice(['need', 'zz']), rng.choice([{}, {'value': 1}])]]
+        elif k == 'outfunc':
+            ops += [['ext', i, 'put', {'value': rng.choice(VALUES)}], ['ext', i, 'put', {'value': rng.choice(VALUES)}],
+                    ['ext', i, rng.choice(['put', 'zz']), {}]]
         elif k == 'input':
             ops += [['ext', i, 'put', {'value': rng.choice(VALUES)}], ['ext', i, 'put', {'value': rng.choice(VALUES)}],
                     ['ext', i, rng.choice(['put', 'zz']), {}]]
